@@ -73,7 +73,7 @@ func (m *Model) readsUnderLock(l Lit, f *ssa.Function, la *LockAnalysis, lock st
 		if s == nil {
 			return
 		}
-		if in, ok := s.V.(ssa.Instruction); ok && in.Parent() == f {
+		if in, ok := s.V.(ssa.Instruction); ok && (in.Parent() == f || containsFn(m.bodyFns(f), in.Parent())) {
 			switch x := s.V.(type) {
 			case *ssa.Call:
 				found = true
@@ -122,11 +122,12 @@ func checkC02(c *Ctx) {
 	for _, unit := range m.ClaimSet {
 		// which parameters of the unit feed the revision and token fields?
 		revIdx, tokIdx := -1, -1
-		eachInstr(unit, func(in ssa.Instruction) {
+		m.eachUnitInstr(unit, func(in ssa.Instruction) {
 			if call, ok := in.(*ssa.Call); ok {
 				if fld, v, ok := m.atomicStore(call); ok {
+					v = m.traceValue(v)
 					for i, p := range unit.Params {
-						if m.Sym.Of(v).String() == m.Sym.Of(p).String() || derivesFromParam(v, p) {
+						if v == ssa.Value(p) || derivesFromParam(v, p) {
 							if fld == m.Revision {
 								revIdx = i
 							}
@@ -187,14 +188,14 @@ func checkC02(c *Ctx) {
 
 	// ---- R2 -------------------------------------------------------------------------
 	for _, unit := range m.ClaimSet {
-		eachInstr(unit, func(in ssa.Instruction) {
+		m.eachUnitInstr(unit, func(in ssa.Instruction) {
 			val, isConst, ok := m.claimStore(in)
 			if !ok || !isConst || !val {
 				return
 			}
 			key := "claim set in " + shortFn(unit)
 			c.check(la.MustBefore(in)[m.implMuW()], "R2", key+" under the election mutex", in, "must-lockset %s", la.MustBefore(in))
-			gs := m.GuardsAt(in)
+			gs := m.unitGuards(unit, in)
 			live, how, lits := m.livenessLits(gs)
 			for _, l := range lits {
 				if ok, at := m.readsUnderLock(l, unit, la, m.path(m.Mu)); !ok {
@@ -255,7 +256,7 @@ func claimPublishedLastRule(c *Ctx, rule string) {
 	m := c.M
 	for _, unit := range m.ClaimSet {
 		var claim ssa.Instruction
-		eachInstr(unit, func(in ssa.Instruction) {
+		m.eachUnitInstr(unit, func(in ssa.Instruction) {
 			if val, isConst, ok := m.claimStore(in); ok && isConst && val {
 				claim = in
 			}
@@ -266,15 +267,15 @@ func claimPublishedLastRule(c *Ctx, rule string) {
 		}
 		for _, fld := range []struct{ name, f string }{{"token", m.Token}, {"revision", m.Revision}, {"leader id", m.LeaderID}} {
 			var st ssa.Instruction
-			eachInstr(unit, func(in ssa.Instruction) {
+			m.eachUnitInstr(unit, func(in ssa.Instruction) {
 				if call, ok := in.(*ssa.Call); ok {
 					if g, _, ok := m.atomicStore(call); ok && g == fld.f {
 						st = in
 					}
 				}
 			})
-			c.check(st != nil && dominatesInstr(st, claim), rule, "the "+fld.name+" of the term is published before the claim in "+shortFn(unit), claim,
-				"the store of %s dominates the claim Store(true): %v. IsLeader(), Token(), LeaderID() and the watcher's revision filter read these fields without the mutex: with the claim stored first a reader sees IsLeader()==true together with the previous term's (or no) %s.", m.path(fld.f), st != nil && dominatesInstr(st, claim), fld.name)
+			c.check(st != nil && m.dominatesLifted(unit, st, claim), rule, "the "+fld.name+" of the term is published before the claim in "+shortFn(unit), claim,
+				"the store of %s dominates the claim Store(true): %v. IsLeader(), Token(), LeaderID() and the watcher's revision filter read these fields without the mutex: with the claim stored first a reader sees IsLeader()==true together with the previous term's (or no) %s.", m.path(fld.f), st != nil && m.dominatesLifted(unit, st, claim), fld.name)
 		}
 	}
 }
